@@ -235,7 +235,7 @@ pub fn gen_func(
             if pac {
                 insns.push(a64(0xd503233f, Eff::Sign)); // paciasp
             }
-            let n = 16 * (1 + p.below(8));
+            let n = if p.chance(1, 4) { 16 * (9 + p.below(24)) } else { 16 * (1 + p.below(8)) };
             insns.push(a64(0xa980_0000 | (imm7(-(n as i64)) << 15) | (30 << 10) | (31 << 5) | 29, Eff::StpFpLrPre(n)));
             insns.push(a64(0x9100_03fd, Eff::AddFpSp(0))); // mov x29, sp
             epilogue.push(a64(0xa8c0_0000 | (imm7(n as i64) << 15) | (30 << 10) | (31 << 5) | 29, Eff::LdpFpLrPost(n)));
@@ -249,7 +249,8 @@ pub fn gen_func(
             if pac {
                 insns.push(a64(0xd503233f, Eff::Sign));
             }
-            let n = 32 + 16 * p.below(12);
+            // record offsets on both sides of 0x100 (imm7 values on both sides of 32)
+            let n = if p.chance(1, 3) { 0x110 + 16 * p.below(15) } else { 32 + 16 * p.below(12) };
             let k = n - 16;
             insns.push(a64(0xd100_03ff | ((n as u32) << 10), Eff::SubSp(n)));
             insns.push(a64(0xa900_0000 | (imm7(k as i64) << 15) | (30 << 10) | (31 << 5) | 29, Eff::StpFpLrOff(k)));
